@@ -81,9 +81,14 @@ def run_both(drv, case):
     # the byte hash after a save is only meaningful when the save was refused (a successful append may rewrite
     # bytes without changing content): blank it on both sides otherwise
     k = [i for i, s in enumerate(case["steps"]) if s["do"] == "hash"][0]
+    # ... and a failing append may have opened (and so touched) the file: what it must preserve is C18's subject
+    keep = cls(case["mode"]) in ("w", None)
     for lst in (io, mo):
-        if lst is not None and len(lst) > k + 3 and lst[k + 2] == {"ok": True} and "hash" in lst[k + 3]:
+        if lst is not None and len(lst) > k + 3 and "hash" in lst[k + 3] and (lst[k + 2] == {"ok": True} or not keep):
             lst[k + 3] = {"hash": "-"}
+        # the content after a FAILING append / append-over is C18's subject (partial effects), not compared here
+        if lst is not None and len(lst) > k + 4 and not keep and lst[k + 2] != {"ok": True}:
+            lst[k + 4] = {"after_failed_append": "-"}
     return io, mo
 
 
